@@ -352,7 +352,9 @@ def run(chk, repo, tier):
     from .common import Remap as _Remap
     from . import c01 as _c01
     from .c06 import insert_rules as _insert_rules
-    _c01.run_check(_Remap(chk, {'C01-a': 'C04-e', 'C01-d': 'C04-e'}), repo, tier)
+    # the sub-pixel part reaches the transform through its shift argument, which is applied to the memoised coordinate vectors:
+    # they stay as they were computed, or a repeated propagation of the same tilted pupil is evaluated about another origin
+    _c01.run_check(_Remap(chk, {'C01-a': 'C04-e', 'C01-d': 'C04-e', 'C01-j': 'C04-e'}), repo, tier)
     _insert_rules(chk, repo, 'C04-e')
     # segments displaced by their own tilts meet again in the output: where their windows touch they are one group
     chk.clause('C04-p', 'tilt-displaced segment fields are combined as the groups they form (reduce / group extents); each owns its transform', 3)
@@ -371,6 +373,10 @@ def run(chk, repo, tier):
     chk.clause('C04-j', 'least-squares fit against the masked piston/tip/tilt basis; per segment inside its mask; pieces summed', 7)
     chk.not_decided += ['sample-for-sample agreement of the four tilt representations', 'numerical arc length for order > 1']
     tilt_chain(chk, repo, 'C04-a')
+    # a tilt left in the OPD is imaged by the transform itself: its displacement is set by the sampling ratio of each axis
+    # (dx*du of that axis), which is what the metadata shift of the same axis assumes - also for non-square output pixels
+    from .c02 import alpha_rule as _alpha_rule
+    _alpha_rule(chk, repo, 'C04-a')
     additive(chk, repo, 'C04-c')
     folding(chk, repo, 'C04-d')
     common.mul_concat(chk, repo, 'C04-d')
